@@ -874,7 +874,19 @@ class UnionByTypeMethod(DeserializationMethod):
         except KeyError:
             raise bad_type(data, *self.method_by_cls) from None
         except ValidationError as err:
-            other_classes = (cls for cls in self.method_by_cls if cls is not data_cls)
+            if data_cls is int and float in self.method_by_cls:
+                # the float alternative accepts integers too
+                try:
+                    return self.method_by_cls[float].deserialize(data)
+                except ValidationError as float_err:
+                    err = merge_errors(err, float_err)
+                other_classes = (
+                    cls for cls in self.method_by_cls if cls not in (int, float)
+                )
+            else:
+                other_classes = (
+                    cls for cls in self.method_by_cls if cls is not data_cls
+                )
             raise merge_errors(err, bad_type(data, *other_classes))
 
 
